@@ -313,6 +313,45 @@ def _interning(rep, m, fn):
                   "a Quantity is constructed without being stored in the intern table: repeating the request yields a different object", node=st, fn=fn)
         for ke in keyexprs:
             _key_complete(rep, fn, res, cfg, st, ke, c)
+    # a request that missed the table under key K and constructs a Quantity must store it under K, so that repeating
+    # the request hits: for every lookup whose miss edge lies on every path to a construction, every path from the
+    # construction to a normal exit passes a store under the same key term
+    lookups = []  # (miss edges {(node, succ, label)}, key term, text)
+    for st in own_statements(fn.node):
+        par = getattr(st, "_parent", None)
+        if isinstance(par, ast.Try) and st in par.body and any(isinstance(h.type, ast.Name) and h.type.id == "KeyError" for h in par.handlers if h.type is not None):
+            reads = [x for x in ast.walk(st) if isinstance(x, ast.Subscript) and isinstance(x.ctx, ast.Load) and is_cache(x.value)]
+            if len(reads) == 1:
+                n_ = cfg.node_of(st)
+                lookups.append(({(n_, b_, l_) for (b_, l_) in cfg.succ[n_] if l_ == "exc"}, res.term(reads[0].slice), norm(ast.unparse(reads[0]))))
+    for nid in cfg.nodes("test"):
+        e = cfg.ast[nid]
+        if isinstance(e, ast.Compare) and len(e.ops) == 1 and isinstance(e.ops[0], (ast.Is, ast.IsNot)) and isinstance(e.comparators[0], ast.Constant) and e.comparators[0].value is None:
+            t = res.term(e.left)
+            if t[0] == "call" and t[1][0] == "attr" and t[1][2] == "get" and len(t[2]) == 1 and not t[3] and any(y[0] == "attr" and y[2] == "quantities_cache" for y in alternatives(t[1][1])):
+                lab = "T" if isinstance(e.ops[0], ast.Is) else "F"
+                lookups.append(({(nid, b_, l_) for (b_, l_) in cfg.succ[nid] if l_ == lab}, t[2][0], norm(ast.unparse(e.left))))
+    all_stores = []  # (node, key term)
+    for st in own_statements(fn.node):
+        if isinstance(st, ast.Assign):
+            for t_ in st.targets:
+                if isinstance(t_, ast.Subscript) and is_cache(t_.value):
+                    all_stores.append((cfg.node_of(st), res.term(t_.slice)))
+        elif isinstance(st, ast.Expr) and isinstance(st.value, ast.Call) and isinstance(st.value.func, ast.Attribute) and st.value.func.attr == "setdefault" and is_cache(st.value.func.value) and st.value.args:
+            all_stores.append((cfg.node_of(st), res.term(st.value.args[0])))
+    for c in ctor_calls:
+        st = c
+        while st is not None and not isinstance(st, ast.stmt):
+            st = getattr(st, "_parent", None)
+        C = cfg.node_of(st)
+        for edges, kt, txt in lookups:
+            if not edges or C in cfg.reach(cfg.ENTRY, avoid_edges=edges):
+                continue  # the construction can be reached without this lookup having missed
+            under = {n_ for n_, k_ in all_stores if k_ == kt}
+            ok = C in under or (bool(under) and cfg.EXIT not in cfg.reach(C, avoid=under))
+            rep.check(ok, "C07.R5", NAME + ":miss-key-stored:%s@%s" % (txt[:40], norm(ast.unparse(st))[:40]), "a Quantity constructed after a miss under a key is stored under that key",
+                      "after the lookup `%s` missed, the new Quantity is not stored under that same key on every path: repeating the very same request misses again and builds another object (the identical-object guarantee is lost, and the shared instance of the resolved spelling is replaced)" % txt,
+                      node=st, fn=fn)
     # every store into the intern table: the key must be made of the request's own components
     # (as asked or as resolved); a constant component makes the entry answer requests that did not
     # resolve to this object
@@ -493,6 +532,59 @@ def r6_eq_hash(rep, ctx):
         extra = norm_(hr) - norm_(er)
         rep.check(not extra, "C07.R6", "%s:hash-subset-eq" % cname, "hash reads %s, all of which eq reads too" % sorted(hr),
                   "hash depends on %s, which eq ignores: equal objects can have different hashes" % sorted(extra), fn=h)
+        # path-sensitive part: whenever __eq__ answers True, every field the hash reads was compared equal (a
+        # comparison that sits in one arm of an `or`, or behind a condition, lets equal objects hash differently).
+        # Decided by the truth table of __eq__ over its leaf tests.
+        from .. import booleval
+        leaves = []
+
+        def collect(x):
+            if isinstance(x, ast.BoolOp):
+                for v in x.values:
+                    collect(v)
+            elif isinstance(x, ast.UnaryOp) and isinstance(x.op, ast.Not):
+                collect(x.operand)
+            elif isinstance(x, ast.IfExp):
+                collect(x.test), collect(x.body), collect(x.orelse)
+            elif isinstance(x, (ast.Compare, ast.Call, ast.Attribute, ast.Name, ast.Subscript)):
+                k = ast.unparse(x).replace(" ", "")
+                if k not in leaves:
+                    leaves.append(k)
+
+        for st in own_statements(e.node):
+            if isinstance(st, ast.If):
+                collect(st.test)
+            elif isinstance(st, ast.Return) and st.value is not None:
+                collect(st.value)
+            elif isinstance(st, ast.Assign):
+                collect(st.value)
+        if leaves and len(leaves) <= 10 and len(e.params) >= 2:
+            me, ot = e.params[0], e.params[1]
+
+            def field_eq_atoms(f):
+                out = []
+                for st in ast.walk(e.node):
+                    if isinstance(st, ast.Compare) and len(st.ops) == 1 and isinstance(st.ops[0], ast.Eq):
+                        l, r = st.left, st.comparators[0]
+                        names_l = {(y.value.id, y.attr.lstrip("_")) for y in ast.walk(l) if isinstance(y, ast.Attribute) and isinstance(y.value, ast.Name)}
+                        names_r = {(y.value.id, y.attr.lstrip("_")) for y in ast.walk(r) if isinstance(y, ast.Attribute) and isinstance(y.value, ast.Name)}
+                        if {(me, f), (ot, f)} <= (names_l | names_r) and ((me, f) in names_l) != ((me, f) in names_r):
+                            out.append(ast.unparse(st).replace(" ", ""))
+                return out
+
+            try:
+                tt = booleval.truth_table(e.node, leaves, lambda x: (ast.unparse(x).replace(" ", "") if ast.unparse(x).replace(" ", "") in leaves and not isinstance(x, (ast.BoolOp,)) and not (isinstance(x, ast.UnaryOp)) else None))
+            except booleval.Unknown:
+                tt = None
+            if tt is not None:
+                for f in sorted({x.lstrip("_") for x in hr}):
+                    atoms_f = [a_ for a_ in field_eq_atoms(f) if a_ in leaves]
+                    if not atoms_f:
+                        continue
+                    idx = [leaves.index(a_) for a_ in atoms_f]
+                    bad_rows = [vals for vals, res_ in tt.items() if res_ and not any(vals[i_] for i_ in idx)]
+                    rep.check(not bad_rows, "C07.R6", "%s:eq-implies-equal:%s" % (cname, f), "whenever __eq__ answers True, `%s` was compared equal (the hash reads it)" % f,
+                              "%s.__eq__ can answer True without `%s` having been compared equal (the comparison is conditional), while __hash__ always reads it: equal objects can have different hashes" % (cname, f), fn=e)
         if cname == "Quantity":
             need = {MAP, "_unknown_unit_caption"}
             rep.check(need <= er, "C07.R6", "Quantity:eq-identity", "eq compares the composing map and the caption",
